@@ -8,7 +8,7 @@
 (*   JUDGE_IN: joined NDJSON, one record [sc, units] per scenario          *)
 (*   JUDGE_OUT: directory for verdict files; JUDGE_CHUNKS: parallelism     *)
 (***************************************************************************)
-EXTENDS TokenConsumers, Json, IOUtils
+EXTENDS TokenConsumers, Analysis, Json, IOUtils
 
 Recs   == ndJsonDeserialize(IOEnv.JUDGE_IN)
 CHUNKS == atoi(IOEnv.JUDGE_CHUNKS)
@@ -172,12 +172,41 @@ JudgeGen(sc, u) ==
   If(u.gen.stderr # "" /\ u.gen.exit = 0, GenMis(u, "C15", "silent", "", u.gen.stderr)) \o
   If(u.fate # "", GenMis(u, "C13", u.fate, "", u.note))
 
+\* diagnostics of a grammar that need not be well formed (family "diag"); u.gen.diags is the list of
+\* <<kind, rule>> pairs the driver found on stderr
+DiagSet(u, kind) == {u.gen.diags[k][2] : k \in {x \in 1..Len(u.gen.diags) : u.gen.diags[x][1] = kind}}
+JudgeDiag(sc, u) ==
+  LET G == sc.grammar
+      strict == u.opt \in {"t", "it", "st", "ist"}
+      und == DiagSet(u, "undefined") unu == DiagSet(u, "unused") lr == DiagSet(u, "leftrec") dup == DiagSet(u, "duplicate")
+      judgeLR == Undefined(G) = {} /\ Duplicates(G) = {}      \* otherwise "re-enter without consuming" is not well defined
+  IN
+  If(u.gen.timeout \/ u.gen.exit \notin {0, 1}, GenMis(u, "C15", "generator-crash", "exit 0 or 1", <<u.gen.exit, u.gen.stderr>>)) \o
+  IF Duplicates(G) # {}
+  THEN \* a duplicate definition is diagnosed; generation may stop there, so nothing else is required
+       If(dup = {} \/ ~(dup \subseteq Duplicates(G)), GenMis(u, "C15", "duplicate-definition", Duplicates(G), dup)) \o
+       If(strict /\ u.gen.exit = 0, GenMis(u, "C15", "strict-exit", TRUE, u.gen.exit)) \o
+       If(u.gen.exit = 0 /\ ~u.gen.hasout, GenMis(u, "C18", "exit0-no-output", TRUE, FALSE))
+  ELSE
+  If(und # Undefined(G), GenMis(u, "C15", "used-but-not-defined", Undefined(G), und)) \o
+  If(unu # Unused(G), GenMis(u, "C15", "defined-but-not-used", Unused(G), unu)) \o
+  If(judgeLR /\ ((lr # {}) # (LeftRec(G) # {})), GenMis(u, "C15", "left-recursion-presence", LeftRec(G), lr)) \o
+  \* (the walk continues after a rule that is itself left recursive, so further rules may be named too;
+  \* the property fixes when the diagnostic appears, and we require one named rule to be a culprit)
+  If(judgeLR /\ lr # {} /\ lr \cap LeftRec(G) = {}, GenMis(u, "C15", "left-recursion-rule", LeftRec(G), lr)) \o
+  If(dup # Duplicates(G), GenMis(u, "C15", "duplicate-definition", Duplicates(G), dup)) \o
+  If(strict /\ ((u.gen.exit # 0) # HasDiagnostics(G)), GenMis(u, "C15", "strict-exit", HasDiagnostics(G), u.gen.exit)) \o
+  If(~strict /\ u.gen.exit # 0, GenMis(u, "C15", "non-strict-exit", 0, <<u.gen.exit, u.gen.stderr>>)) \o
+  If(~HasDiagnostics(G) /\ u.gen.stderr # "", GenMis(u, "C15", "silent", "", u.gen.stderr)) \o
+  If(u.gen.exit = 0 /\ ~u.gen.hasout, GenMis(u, "C18", "exit0-no-output", TRUE, FALSE)) \o
+  If(u.gen.exit = 0 /\ u.gen.hasout /\ ~u.gen.compiles /\ LeftRec(G) = {} , GenMis(u, "C08", "compiles", TRUE, u.gen.msg))
+
 RECURSIVE JudgeUnits(_, _, _, _, _)
 JudgeUnits(sc, B, units, du, k) ==
   IF k > Len(units) THEN <<>>
   ELSE LET u == units[k] IN
-       JudgeGen(sc, u) \o JudgeRuns(sc, B, units, du, u, 1) \o
-       <<[kind |-> "stat", opt |-> u.opt, runs |-> Len(u.runs), compiled |-> u.gen.compiles, nswitch |-> u.gen.nswitch, nnil |-> u.gen.nnil,
+       (IF sc.family = "diag" THEN JudgeDiag(sc, u) ELSE JudgeGen(sc, u) \o JudgeRuns(sc, B, units, du, u, 1)) \o
+       <<[kind |-> "stat", opt |-> u.opt, runs |-> Len(u.runs), hasdiag |-> (sc.family = "diag" /\ HasDiagnostics(sc.grammar)), compiled |-> u.gen.compiles, nswitch |-> u.gen.nswitch, nnil |-> u.gen.nnil,
           memooff |-> Cardinality({j \in 1..Len(u.runs) : ~sc.plan[u.runs[j].c].memo}),
           hist |-> Cardinality({j \in 1..Len(u.runs) : u.runs[j].h > 0}),
           accepted |-> Cardinality({j \in 1..Len(u.runs) : u.runs[j].ok}),
@@ -187,7 +216,7 @@ JudgeUnits(sc, B, units, du, k) ==
 
 JudgeRec(rec) ==
   LET sc == rec.sc
-      B == BodyMap(Core(sc.grammar))
+      B == IF sc.family = "diag" THEN <<>> ELSE BodyMap(Core(sc.grammar))
       D == {k \in 1..Len(rec.units) : rec.units[k].opt = ""}
       du == IF D = {} THEN <<>> ELSE <<rec.units[CHOOSE k \in D : TRUE]>>
       out == JudgeUnits(sc, B, rec.units, du, 1)
